@@ -292,6 +292,8 @@ def op_lit(op, stored):
         return "FullWaveform %s" % qlist(grid_times(op[1]))
     if kind == "during":
         return "IsHitDuring %s" % qlist(grid_times(op[1]))
+    if kind == "noise":
+        return "MakeNoise %s" % qlist(grid_times(op[1]))
     return {"all": "AllWaveforms", "wf": "Waveforms", "hit": "IsHit", "hitmc": "IsHitMC", "signals": "Signals"}[kind]
 
 
@@ -454,6 +456,13 @@ def rand_history(rng, cfg, max_ops=40, noise=False):
     if noise:
         qops = qops + ["noise", "noise", "full"]
     p_recv = rng.choice([0.25, 0.4, 0.55])
+    p_clear = 0.06
+    if noise:
+        # also: antennas that are idle / have only produced noise, clears (with and without noise reset) on them,
+        # twice in a row, with noise reads on re-used windows in between
+        p_recv = rng.choice([0.0, 0.08, 0.25, 0.4])
+        p_clear = rng.choice([0.06, 0.2, 0.3])
+    used_grids = []
     thr = Fr(cfg["thr"]) if cfg.get("thr") is not None else None
     totals = []          # what the antenna stores for each receive (exact classes)
     first_q = [q for q in ("hit", "hitmc", "wf", "all", "during", "full") if q in qops]
@@ -461,17 +470,26 @@ def rand_history(rng, cfg, max_ops=40, noise=False):
 
     def query(q):
         if q in ("full", "during", "noise"):
+            if noise and used_grids and rng.random() < 0.6:
+                g0 = rng.choice(used_grids)
+                g = dict(g0)
+                if rng.random() < 0.5:      # overlapping, same step
+                    g["t0"] = fs(Fr(g0["t0"]) + rng.randint(-3, 3) * Fr(g0["dt"]))
+                return [q, g]
             if prev and q != "noise" and rng.random() < 0.5:
                 pq = rng.choice(prev)
-                return [q, {"t0": pq["t0"], "dt": pq["dt"], "n": pq["n"]}]
-            return [q, rand_query_grid(rng, prev)]
+                g = {"t0": pq["t0"], "dt": pq["dt"], "n": pq["n"]}
+            else:
+                g = rand_query_grid(rng, prev)
+            used_grids.append(g)
+            return [q, g]
         return [q]
     while len(hist) < n_ops:
         r = rng.random()
         if force_query:
             # every kind of query gets to be the FIRST one after a receive
             force_query = False
-            hist.append(query(rng.choice(first_q)))
+            hist.append(query(rng.choice(first_q + (["noise", "noise", "full"] if noise else []))))
         elif r < p_recv and len(prev) < 6:
             s = rand_signal(rng, prev, totals, thr)
             ts, vs = sig_of(s)
@@ -493,10 +511,13 @@ def rand_history(rng, cfg, max_ops=40, noise=False):
             prev.append(s)
             totals.append((ts, vs))
             force_query = rng.random() < 0.6
-        elif p_recv <= r < p_recv + 0.06:
-            hist.append(["clear", rng.random() < 0.4])
+        elif p_recv <= r < p_recv + p_clear:
+            hist.append(["clear", rng.random() < (0.6 if noise else 0.4)])
+            if noise and rng.random() < 0.25:
+                hist.append(["clear", rng.random() < 0.6])          # twice in a row
             prev = []
             totals = []
+            force_query = noise and rng.random() < 0.6             # a read right after the clear
         else:
             hist.append(query(rng.choice(qops)))
     return hist
@@ -652,74 +673,124 @@ def summarize(hist):
     return " ".join(op[0] for op in hist)
 
 
-# ------------------------------------------------------------------ noise probes (implementation only)
+# ------------------------------------------------------------------ noise probes
+NOISE_CFGS = [{"kind": "exact"}, {"kind": "sys", "lead_in": "3/1", "k": "2/1"},
+              {"kind": "sys", "lead_in": "0/1", "k": "1/1"}, {"kind": "real"},
+              {"kind": "dipole", "thr": "2/1"}, {"kind": "thr", "thr": "3/1"},
+              # front ends with memory; lead_in_time covers the memory for every grid step (dt <= 2)
+              {"kind": "sys", "lead_in": "6/1", "k": "1/1", "taps": ["0/1", "0/1", "0/1", "1/1"]},
+              {"kind": "sys", "lead_in": "5/2", "k": "2/1", "taps": ["1/1", "-1/1"]},
+              {"kind": "sys", "lead_in": "27/4", "k": "-1/1", "taps": ["1/4", "1/2", "1/4"]},
+              {"kind": "sys", "lead_in": "10/1", "k": "1/2", "thr": "3/1", "taps": ["2/1", "0/1", "0/1", "-1/1"]},
+              {"kind": "sys", "lead_in": "10/1", "k": "1/1", "taps": ["0/1", "0/1", "0/1", "0/1", "0/1", "1/1"]}]
+
+_G8 = {"t0": "0/1", "dt": "1/1", "n": 8}
+NOISE_FIXED = [
+    ({"kind": "sys", "lead_in": "6/1", "k": "2/1", "taps": ["0/1", "0/1", "0/1", "1/1"]},
+     [["noise", _G8], ["noise", {"t0": "4/1", "dt": "1/1", "n": 8}],
+      ["recv", {"t0": "2/1", "dt": "1/1", "n": 6, "vals": ["0/1", "5/1", "-3/1", "4/1", "1/1", "0/1"]}],
+      ["full", _G8], ["all"],
+      ["recv", {"t0": "3/1", "dt": "1/2", "n": 5, "vals": ["0/1", "0/1", "0/1", "0/1", "0/1"], "form": "empty"}],
+      ["wf"], ["noise", {"t0": "3/1", "dt": "1/2", "n": 5}], ["full", {"t0": "4/1", "dt": "1/1", "n": 8}]]),
+    # resets on an idle antenna / an antenna that has only produced noise / twice in a row
+    ({"kind": "exact"},
+     [["recv", {"t0": "2/1", "dt": "1/1", "n": 4, "vals": ["0/1", "5/1", "-3/1", "0/1"]}], ["all"], ["clear", True],
+      ["full", _G8], ["clear", True], ["full", _G8], ["clear", False], ["noise", _G8], ["clear", True], ["clear", True],
+      ["noise", _G8], ["clear", False], ["clear", True], ["full", _G8]]),
+    ({"kind": "sys", "lead_in": "5/2", "k": "2/1", "taps": ["1/1", "-1/1"]},
+     [["noise", _G8], ["clear", True], ["noise", _G8], ["clear", False], ["full", _G8], ["clear", True], ["clear", False],
+      ["full", _G8], ["recv", {"t0": "2/1", "dt": "1/1", "n": 4, "vals": ["0/1", "5/1", "-3/1", "0/1"]}], ["wf"],
+      ["clear", True], ["noise", _G8]]),
+]
+
+
+def noise_model_expr(cfg, hist):
+    gen = iter([expected_stored(op) for op in hist if op[0] in ("recv", "recv2")])
+    ops = "[" + "; ".join(op_lit(op, next(gen) if op[0] in ("recv", "recv2") else None) for op in hist) + "]"
+    if cfg["kind"] == "sys":
+        sc = "(mkSConfig (cfg_epoch true) %s %s %s)" % (qlit(Fr(cfg.get("lead_in", "0/1"))), qlit(Fr(cfg.get("k", "1/1"))),
+                                                       qlist([Fr(c) for c in cfg.get("taps") or []]))
+        return "enc_masters (s_run_masters %s s_init %s)" % (sc, ops)
+    return "enc_masters (run_masters (cfg_epoch true) a_init %s)" % ops
+
+
 def noise_probe(ctx, n_hist):
-    """With noise the same realisation must be seen at the same absolute time until
-    clear(reset_noise=True): every waveform value minus the (oracle) signal sum is a noise
-    sample n(t); two samples of the same t in the same noise epoch must agree."""
+    """Noisy objects.  (a) implementation against the property: one noise realisation at the same absolute times
+    until clear(reset_noise=True); that clear drops the master unconditionally and the next realisation is a
+    fresh one; no other operation replaces the master.  (b) implementation against the model: the identity of
+    the _noise_master object after every op (serial number by first appearance, -1 = none) equals the model's
+    noise-master draw index (run_masters)."""
     rng = ctx.rng
-    kinds = 0
     reported = 0
     n_bad = 0
-    fixed = [({"kind": "sys", "lead_in": "6/1", "k": "2/1", "taps": ["0/1", "0/1", "0/1", "1/1"]},
-              [["noise", {"t0": "0/1", "dt": "1/1", "n": 8}], ["noise", {"t0": "4/1", "dt": "1/1", "n": 8}],
-               ["recv", {"t0": "2/1", "dt": "1/1", "n": 6, "vals": ["0/1", "5/1", "-3/1", "4/1", "1/1", "0/1"]}],
-               ["full", {"t0": "0/1", "dt": "1/1", "n": 8}], ["all"],
-               ["recv", {"t0": "3/1", "dt": "1/2", "n": 5, "vals": ["0/1", "0/1", "0/1", "0/1", "0/1"], "form": "empty"}],
-               ["wf"], ["noise", {"t0": "3/1", "dt": "1/2", "n": 5}], ["full", {"t0": "4/1", "dt": "1/1", "n": 8}]])]
+    runs = []
     for i in range(n_hist):
-        if i < len(fixed):
-            cfg, hist = fixed[i]
+        if i < len(NOISE_FIXED):
+            cfg, hist = NOISE_FIXED[i]
             seed = 12345
-            bad = noise_history_bad(cfg, hist, seed)
-            ctx.case(key=("noise", json.dumps(cfg, sort_keys=True), summarize(hist)), nontrivial=True)
-            kinds += 1
-            if bad:
-                n_bad += 1
-                reported += 1
-                ctx.fail("noise:" + history_key(cfg, hist),
-                         "noisy %s: the noise seen is not the one noise realisation at the same absolute times: %s ; history: %s"
-                         % (json.dumps(cfg), bad, summarize(hist)),
-                         {"kind": "noise", "cfg": cfg, "history": hist, "np_seed": seed})
-            continue
-        cfg = rng.choice([{"kind": "exact"}, {"kind": "sys", "lead_in": "3/1", "k": "2/1"},
-                          {"kind": "sys", "lead_in": "0/1", "k": "1/1"}, {"kind": "real"},
-                          {"kind": "dipole", "thr": "2/1"}, {"kind": "thr", "thr": "3/1"},
-                          # front ends with memory; lead_in_time covers the memory for every grid step (dt <= 2)
-                          {"kind": "sys", "lead_in": "6/1", "k": "1/1", "taps": ["0/1", "0/1", "0/1", "1/1"]},
-                          {"kind": "sys", "lead_in": "5/2", "k": "2/1", "taps": ["1/1", "-1/1"]},
-                          {"kind": "sys", "lead_in": "27/4", "k": "-1/1", "taps": ["1/4", "1/2", "1/4"]},
-                          {"kind": "sys", "lead_in": "10/1", "k": "1/2", "thr": "3/1", "taps": ["2/1", "0/1", "0/1", "-1/1"]},
-                          {"kind": "sys", "lead_in": "10/1", "k": "1/1", "taps": ["0/1", "0/1", "0/1", "0/1", "0/1", "1/1"]}])
-        hist = rand_history(rng, cfg, max_ops=25, noise=True)
-        # restrict to integer time steps (the noise master is built from the first window)
-        seed = rng.randrange(2**31)
-        bad = noise_history_bad(cfg, hist, seed)
-        ctx.case(key=("noise", json.dumps(cfg, sort_keys=True), summarize(hist)),
+        else:
+            cfg = rng.choice(NOISE_CFGS)
+            hist = rand_history(rng, cfg, max_ops=25, noise=True)
+            seed = rng.randrange(2**31)
+        bad, trace = noise_run(cfg, hist, seed)
+        ctx.case(key=("noise", json.dumps(cfg, sort_keys=True), json.dumps(hist)),
                  nontrivial=bad is not None or any(op[0] in ("noise", "full", "all", "wf") for op in hist),
-                 sample={"noise_history": summarize(hist), "cfg": cfg} if i < 1 else None)
-        kinds += 1
+                 sample={"noise_history": summarize(hist), "cfg": cfg, "noise_master_serials": trace} if i in (1, len(NOISE_FIXED)) else None)
         n_bad += 1 if bad else 0
         if bad and reported < 3:
             reported += 1
-            small = shrink(cfg, hist, lambda h: noise_history_bad(cfg, h, seed) is not None)
+            small = hist if i < len(NOISE_FIXED) else shrink(cfg, hist, lambda h: noise_history_bad(cfg, h, seed) is not None)
             what = noise_history_bad(cfg, small, seed)
             ctx.fail("noise:" + history_key(cfg, small),
-                     "noisy %s: the noise seen (waveform minus the front end of the sum of the received signals) is not the one "
-                     "noise realisation at the same absolute times (noise not reset): %s ; history: %s" % (json.dumps(cfg), what, summarize(small)),
+                     "noisy %s: %s ; history: %s" % (json.dumps(cfg), what, summarize(small)),
                      {"kind": "noise", "cfg": cfg, "history": small, "np_seed": seed})
-    ctx.oblige("probe:noise realisation consistent (implementation)", n_bad == 0, "%d of %d noisy histories" % (n_bad, kinds))
-    return kinds
+        if not bad:
+            runs.append((cfg, hist, trace))
+    ctx.oblige("probe:noise realisation / epochs consistent (implementation)", n_bad == 0, "%d of %d noisy histories" % (n_bad, n_hist))
+    # (b) epochs against the model
+    cmp_runs = [r for r in runs if r[2] is not None]
+    detail, n_dis = "", 0
+    try:
+        vals = ctx.coq_eval_exprs(IMPORTS, [noise_model_expr(c, h) for c, h, _ in cmp_runs],
+                                  chunk=max(1, (len(cmp_runs) + 7) // 8)) if cmp_runs else []
+        for (cfg, hist, trace), v in zip(cmp_runs, vals):
+            mt = parse_zlist(v)
+            if mt != trace:
+                n_dis += 1
+                j = next((x for x in range(min(len(mt), len(trace))) if mt[x] != trace[x]), min(len(mt), len(trace)))
+                if not detail:
+                    detail = "history [%s] on %s: after op %d (%s) the implementation holds noise master #%s, the model #%s" % (
+                        summarize(hist), json.dumps(cfg), j, hist[j][0] if j < len(hist) else "?", trace[j:j + 1], mt[j:j + 1])
+                    ctx.fail("corr:noise:" + history_key(cfg, hist), "noise epochs of implementation and Coq model disagree: " + detail,
+                             {"kind": "noise", "cfg": cfg, "history": hist, "np_seed": 12345}, witness=False)
+        ctx.oblige("corr:noise epochs impl=model", n_dis == 0, detail)
+    except Exception as e:   # noqa
+        ctx.oblige("corr:noise epochs impl=model", False, str(e)[-800:])
+    ctx.extra["noise_epochs"] = {"histories": n_hist, "compared_with_model": len(cmp_runs), "disagreements": n_dis,
+                                 "resets": sum(1 for _, h, _ in runs for op in h if op[0] == "clear" and op[1]),
+                                 "masters_drawn": sum((max(t) + 1) for _, _, t in cmp_runs if t)}
+    return n_hist
 
 
 def noise_history_bad(cfg, hist, seed):
-    """Returns a description of the first inconsistency or None.
+    return noise_run(cfg, hist, seed)[0]
+
+
+_MISSING = object()
+
+
+def noise_run(cfg, hist, seed):
+    """Returns (description of the first inconsistency or None, serial numbers of the noise master after each op).
     For every make_noise / full_waveform / all_waveforms / waveforms output, value - (front end of the sum of
-    the received signals) is the noise sample n(t) of that trace.  (1) two samples at the same absolute time
-    (and, for a front end acting on samples, the same grid step) within one noise epoch must agree;
+    the received signals) is the noise sample n(t) of that trace.
+    (1) two samples at the same absolute time (and, for a front end acting on samples, the same grid step) within
+        one noise epoch must agree;
     (2) n(t_j) must equal the front end applied to the ANTENNA's noise on the infinite grid of step dt through
-    t_j:  sum_m taps[m]*k*N(t_j - m*dt), N read from Antenna.make_noise at those absolute times (numpy only;
-    never touches the system's lead-in code)."""
+        t_j:  sum_m taps[m]*k*N(t_j - m*dt), N read from Antenna.make_noise at those absolute times (numpy only;
+        never touches the system's lead-in code);
+    (3) epochs: clear(reset_noise=True) leaves no noise master whatever the antenna holds (the empty state); no
+        other operation replaces an existing master (object identity); after a reset the noise at absolute times
+        seen before is NOT the earlier realisation again."""
     np.random.seed(seed)
     obj = build(cfg, noisy=True)
     orc = Oracle(cfg)
@@ -727,8 +798,12 @@ def noise_history_bad(cfg, hist, seed):
     taps = [float(c) for c in orc.taps]
     gain = abs(k) * sum(abs(c) for c in taps)
     ant = getattr(obj, "antenna", obj)
-    seen = {}
+    seen = {}        # current epoch
+    past = {}        # earlier epochs (latest value per key)
     received = []
+    masters = []     # keeps every master object alive so that identity is meaningful
+    trace = []
+    prev_serial = -1
 
     def tol():
         return 1e-9 * (1 + gain) * (1 + sum(float(max(abs(v) for v in vs)) for _, vs in received))
@@ -745,12 +820,17 @@ def noise_history_bad(cfg, hist, seed):
         dt = times[1] - times[0]
         sigpart = [float(v) for v in orc.fe_of(received, times)] if (with_signals and received) else [0.0] * len(times)
         exp = expected_noise(times)
-        for i, (t, v) in enumerate(zip(times, sig[1])):
-            n = float(v) - sigpart[i]
-            key = (t, dt) if len(taps) > 1 else t
+        ns = [float(v) - sp for v, sp in zip(sig[1], sigpart)]
+        keys = [((t, dt) if len(taps) > 1 else t) for t in times]
+        shared = [(n, past[key]) for n, key in zip(ns, keys) if key in past]
+        if shared and any(abs(o) > 1e-6 for _, o in shared) and all(abs(n - o) <= tol() for n, o in shared):
+            return ("%s shows, after clear(reset_noise=True), the SAME noise realisation as before the reset at all %d "
+                    "absolute times it shares with earlier reads (e.g. %r)" % (what, len(shared), shared[0][0]))
+        for i, (t, n, key) in enumerate(zip(times, ns, keys)):
             if key in seen:
                 if abs(seen[key][0] - n) > tol():
-                    return "noise at t=%s was %r (%s) and is now %r (%s)" % (t, seen[key][0], seen[key][1], n, what)
+                    return "noise at t=%s was %r (%s) and is now %r (%s) although the noise was not reset" % (
+                        t, seen[key][0], seen[key][1], n, what)
             else:
                 seen[key] = (n, what)
             if abs(n - exp[i]) > tol():
@@ -761,29 +841,49 @@ def noise_history_bad(cfg, hist, seed):
         try:
             o = impl_do(obj, op)
         except Exception as e:   # noqa
-            return "exception %s: %s at op %d %s" % (type(e).__name__, str(e)[:150], j, op[0])
+            return "exception %s: %s at op %d %s" % (type(e).__name__, str(e)[:150], j, op[0]), None
+        # ---- epochs by object identity
+        if trace is not None:
+            m = getattr(ant, "_noise_master", _MISSING)
+            if m is _MISSING:
+                trace = None
+            else:
+                if m is None:
+                    serial = -1
+                else:
+                    serial = next((x for x, mm in enumerate(masters) if mm is m), None)
+                    if serial is None:
+                        masters.append(m)
+                        serial = len(masters) - 1
+                trace.append(serial)
+                if op[0] == "clear" and op[1]:
+                    if serial != -1:
+                        return ("clear(reset_noise=True) at op %d left the noise master in place (the antenna held %d signals): "
+                                "the next noise is not a fresh realisation" % (j, len(received))), trace
+                elif prev_serial != -1 and serial != prev_serial:
+                    return "op %d (%s) replaced the noise master although the noise was not reset" % (j, op[0]), trace
+                prev_serial = serial
+        r = None
         if op[0] in ("recv", "recv2"):
             received.append(stored_signal(obj))
         elif op[0] == "clear":
             received = []
             if op[1]:
+                for key, (n, _) in seen.items():
+                    past[key] = n
                 seen = {}
         elif op[0] == "noise":
             r = note(o, "make_noise@%d" % j, with_signals=False)
-            if r:
-                return r
         elif op[0] == "full":
             r = note(o, "full_waveform@%d" % j)
-            if r:
-                return r
         elif op[0] in ("all", "wf"):
             if op[0] == "all" and len(o) != len(received):
-                return "all_waveforms has %d entries for %d received signals" % (len(o), len(received))
+                return "all_waveforms has %d entries for %d received signals" % (len(o), len(received)), trace
             for w in o:
-                r = note(w, "%s@%d" % (op[0], j))
-                if r:
-                    return r
-    return None
+                r = r or note(w, "%s@%d" % (op[0], j))
+        if r:
+            return r, trace
+    return None, trace
 
 
 # ------------------------------------------------------------------ lead-in grid (pure function), compared directly
